@@ -395,7 +395,7 @@ class Evaluator:
         s.prog = prog
         s.real = set(real_atoms)
         s.facts: dict = {}                 # poly key -> set of relations '>0' '>=0' '<0' '<=0' '!=0' '==0'
-        s._steps = 0; s.step_budget = 400000; s._callstack = []
+        s._steps = 0; s.step_budget = 400000; s._callstack = []; s.reductions = []
         s._init_facts = list(facts)
         for p, rel in facts: s.add_fact(p, rel)
         s.assumed: list = []               # (guard, polarity) assumptions from pruned raise branches
@@ -1275,6 +1275,11 @@ class Evaluator:
             if isinstance(f_, Ref) and (f_.name in ('operator.add', '_operator.add') or (f_.kind == 'npfun' and f_.name == 'add')):
                 tot_ = s.builtin('sum', [args[1]], {}, mod, depth)
                 return s.binop(ast.Add(), args[2], tot_) if len(args) == 3 else tot_
+            if len(args) == 3 and _is_callable_term(f_):
+                # a fold over a symbolic sequence is the loop `acc = init; for x in it: acc = f(acc, x)`: recorded like a loop (step function,
+                # sequence, initial value) so that rules about sequential updates read both spellings
+                s.reductions.append({'fn': f_, 'iter': it_, 'init': args[2], 'mod': mod})
+                return Opq('loop', it_, Opq('init', args[2]), Opq('step', s.apply(f_, [Poly.atom(('carried', 'acc')), s.elem_of(it_, 0)], {}, mod, depth)))
             return NotImplemented
         return NotImplemented
 
